@@ -107,6 +107,44 @@ class SizedPool(ReversedPool):
     _max_workers = 5
 
 
+class NewestFirstExecutor(__import__("concurrent.futures").futures.Executor):
+    """a concurrent.futures executor with one worker that always runs the most recently submitted task first: tasks of a
+    batch COMPLETE in reverse order, while `Executor.map` (inherited) still yields results in submission order"""
+
+    def __init__(self, delay=0.002):
+        self._delay, self._lock, self._tasks, self._worker = delay, threading.Lock(), [], None
+
+    def submit(self, fn, /, *args, **kwargs):
+        from concurrent.futures import Future
+        fut = Future()
+        with self._lock:
+            self._tasks.append((fut, fn, args, kwargs))
+            if self._worker is None:
+                self._worker = threading.Timer(self._delay, self._drain)
+                self._worker.daemon = True
+                self._worker.start()
+        return fut
+
+    def _drain(self):
+        while True:
+            with self._lock:
+                if not self._tasks:
+                    self._worker = None
+                    return
+                fut, fn, args, kwargs = self._tasks.pop()
+            if not fut.set_running_or_notify_cancel():
+                continue
+            try:
+                fut.set_result(fn(*args, **kwargs))
+            except BaseException as exc:  # noqa
+                fut.set_exception(exc)
+
+
+def _thread_executor():
+    from concurrent.futures import ThreadPoolExecutor
+    return ThreadPoolExecutor(3)
+
+
 def _thread_pool():
     from multiprocessing.pool import ThreadPool
     return ThreadPool(3)
@@ -117,6 +155,8 @@ STRATEGIES = {
     "vector+sized": dict(vectorize=True, pool=SizedPool),
     "vector+threadpool": dict(vectorize=True, pool=_thread_pool),
     "sized": dict(vectorize=False, pool=SizedPool),
+    "executor-newest-first": dict(vectorize=False, pool=NewestFirstExecutor),
+    "executor-threads": dict(vectorize=False, pool=_thread_executor),
     "vector": dict(vectorize=True, pool=None),
     "pool=1": dict(vectorize=False, pool=1),
     "reversed": dict(vectorize=False, pool=ReversedPool),
@@ -149,6 +189,8 @@ def _run(strategy, kernel, blobs, seed, n_iter=None, n_total=48):
             trace.append((float(cur["beta"]), int(cur["steps"]), int(cur["calls"]), like.n))
     if hasattr(pool, "terminate"):
         pool.terminate()
+    elif hasattr(pool, "shutdown") and not isinstance(pool, NewestFirstExecutor):
+        pool.shutdown(wait=False)
     st_ = s.state
     fp = common.digest([st_.get_history("u", flat=True).tobytes().hex(), st_.get_history("logl", flat=True).tobytes().hex(),
                         np.asarray(st_.get_history("beta")).tobytes().hex(), np.asarray(st_.get_history("logz")).tobytes().hex(),
@@ -302,7 +344,8 @@ def correspond(tier):
     c2 = Corr("call-accounting", "exact")
     ccases = [(n, k, b, rng.randrange(2 ** 31)) for n, k, b in
               [("scalar", "tpcn", False), ("vector", "rwm", False), ("threaded", "tpcn", True), ("pool=1", "rwm", True), ("generator", "tpcn", False),
-               ("vector+sized", "tpcn", False), ("vector+threadpool", "rwm", False), ("sized", "rwm", True)]]
+               ("vector+sized", "tpcn", False), ("vector+threadpool", "rwm", False), ("sized", "rwm", True),
+               ("executor-newest-first", "tpcn", True)]]
     if tier == "thorough":
         ccases += [(n, k, b, rng.randrange(2 ** 31)) for n in STRATEGIES for k in ("tpcn", "rwm") for b in (False, True) if not (n.startswith("vector") and b)]
     calls_violations(drv, ccases, c2)
